@@ -147,7 +147,7 @@ def run_stream(spec, tier, seed, replay_line=None):
     driver = os.path.join(LEAN, ".lake", "build", "bin", "gbdriver")
     shards = spec.get("shards", {}).get(tier, 1) if isinstance(spec.get("shards"), dict) else spec.get("shards", 1)
     procs = []
-    for i in range(shards):
+    for i in range(0 if spec.get("join") else shards):
         args = [hb, spec["name"], "--tier", tier, "--seed", str(seed)] + list(spec.get("args", {}).get(tier, []))
         if shards > 1:
             args += ["--shard", "%d/%d" % (i, shards)]
@@ -162,6 +162,8 @@ def run_stream(spec, tier, seed, replay_line=None):
         procs.append((h, d, errpath, errf))
     res = {"total": 0, "ok": 0, "nontrivial": 0, "modeldiff": 0, "specdiff": 0, "bad": 0,
            "diffs": [], "samples": [], "harness_errors": []}
+    if spec.get("join"):
+        return run_joined(spec, tier, seed, shards, replay_line, res)
     for h, d, errpath, errf in procs:
         out, _ = d.communicate()
         hrc = h.wait()
@@ -189,6 +191,79 @@ def run_stream(spec, tier, seed, replay_line=None):
                 res["diffs"].append(line)
         if not got_summary:
             res["harness_errors"].append("driver produced no SUMMARY for stream " + spec["name"])
+    return res
+
+
+def parse_driver_output(out, res, name):
+    got_summary = False
+    for line in out.split("\n"):
+        if line.startswith("SUMMARY"):
+            got_summary = True
+            for k, v in re.findall(r"(\w+)=(\d+)", line):
+                if k in res:
+                    res[k] += int(v)
+        elif line.startswith("SAMPLE "):
+            if len(res["samples"]) < 6:
+                res["samples"].append(line[7:])
+        elif line.startswith(("MODEL≠IMPL", "IMPL≠SPEC", "BAD", "INFO")):
+            res["diffs"].append(line)
+    if not got_summary:
+        res["harness_errors"].append("driver produced no SUMMARY for stream " + name)
+
+
+def run_joined(spec, tier, seed, shards, replay_line, res):
+    """the same generated cases through the jit and the non-jit harness build; their lines are merged
+    (`<inputs> | <jit outputs> n_<k>=<non-jit outputs>`) and fed to the driver"""
+    driver = os.path.join(LEAN, ".lake", "build", "bin", "gbdriver")
+    os.makedirs(os.path.join(WORK, "logs"), exist_ok=True)
+    jobs = []
+    for i in range(shards):
+        files = {}
+        for build in ("jit", "nojit"):
+            args = [harness_bin(build == "jit"), spec["name"], "--tier", tier, "--seed", str(seed)] + list(spec.get("args", {}).get(tier, []))
+            if shards > 1:
+                args += ["--shard", "%d/%d" % (i, shards)]
+            if replay_line is not None:
+                args += ["--replay-line", replay_line]
+            path = os.path.join(WORK, "logs", "%s.%d.%d.%s.out" % (spec["name"], os.getpid(), i, build))
+            f = open(path, "wb")
+            p = subprocess.Popen(args, stdout=f, stderr=subprocess.DEVNULL)
+            files[build] = (p, f, path)
+        jobs.append(files)
+    for files in jobs:
+        for build in files:
+            p, f, path = files[build]
+            rc = p.wait()
+            f.close()
+            if rc != 0:
+                res["harness_errors"].append("harness %s (%s build) exit %d" % (spec["name"], build, rc))
+        merged = os.path.join(WORK, "logs", os.path.basename(files["jit"][2]) + ".merged")
+        with open(files["jit"][2], errors="replace") as fj, open(files["nojit"][2], errors="replace") as fn, open(merged, "w") as fm:
+            lj, ln = fj.read().split("\n"), fn.read().split("\n")
+            if len(lj) != len(ln):
+                res["harness_errors"].append("joined stream %s: %d jit lines vs %d non-jit lines" % (spec["name"], len(lj), len(ln)))
+            for a, b in zip(lj, ln):
+                if not a or " | " not in a or " | " not in b:
+                    continue
+                ia, oa = a.split(" | ", 1)
+                ib, ob = b.split(" | ", 1)
+                if ia != ib:
+                    res["harness_errors"].append("joined stream %s: case mismatch between builds" % spec["name"])
+                    break
+                nb = " ".join("n_" + t for t in ob.split(" ") if t)
+                fm.write("%s | %s %s\n" % (ia, oa, nb))
+        with open(merged) as fm:
+            out = subprocess.run([driver], stdin=fm, stdout=subprocess.PIPE, text=True).stdout
+        parse_driver_output(out, res, spec["name"])
+        for build in files:
+            try:
+                os.remove(files[build][2])
+            except OSError:
+                pass
+        try:
+            os.remove(merged)
+        except OSError:
+            pass
     return res
 
 
@@ -247,8 +322,8 @@ def main():
     broken += ["translator: " + m for m in run_gen(P.get("gen", []))]
 
     # 2. harness from the current tree
-    need_jit = any(s.get("jit") for s in P["streams"])
-    need_nojit = any(not s.get("jit") for s in P["streams"])
+    need_jit = any(s.get("jit") or s.get("join") for s in P["streams"])
+    need_nojit = any((not s.get("jit")) or s.get("join") for s in P["streams"])
     for jit in ([False] if need_nojit else []) + ([True] if need_jit else []):
         rc, out = build_harness(jit)
         if rc != 0:
